@@ -42,7 +42,7 @@ CLAIMED = {
     note="Trusted: TLC, the transcription of the W3C text (not available offline; follows the repository's doc "
          "comments), the harness's mapping-table encoder and mock patch server. Format 2 tables in IFT.tla (two design axes for "
          "glyph keyed entries, one for invalidating ones), format 1 glyph / feature maps in IFT1.tla (incl. feature maps beyond "
-         "16384 entry map records); <= 8 code point atoms. Cross-table ties between equally ordered candidates are accepted either way.",
+         "16384 entry map records), URI template expansion in UriTemplate.tla; <= 8 code point atoms. Cross-table ties between equally ordered candidates are accepted either way.",
     technique="TLA+ spec of IFT selection/extension checked by TLC (safety + liveness); TLC-enumerated cases replayed on the client; trace validation of real extension loops",
     design="4/C19"),
  "C18": dict(
